@@ -111,8 +111,6 @@ theorem fwd_directiveDefinition {dk : Kind} (hdk : DescKind dk) (d : DirectiveDe
   obtain ⟨σ5, h5, hs⟩ := hs
   rw [Starts.append_iff] at hs
   obtain ⟨σ6, h6, h7⟩ := hs
-  have htail : ∀ (rep : Bool) (b : AS), b.σ = σ5 → rep = d.repeatable →
-      Fwd (directiveTail n d.desc (posOf 0 zeroTok) d.name [] rep) b (fun _ _ => True) → True := fun _ _ _ _ _ => trivial
   have hon : σ5.head.kind = .name ∧ σ5.head.value = kwOn := by
     obtain ⟨u, hσu, hu⟩ := h6.single
     rw [hσu]; exact ⟨ofToken_kind hu, ofToken_value hu⟩
@@ -173,5 +171,135 @@ theorem fwd_directiveDefinition {dk : Kind} (hdk : DescKind dk) (d : DirectiveDe
     refine (tailFwd false _ (by simp [hσ5])).mono ?_
     rintro y a' ⟨hy, hσ⟩
     exact ⟨by rw [hy]; simp [DirectiveDef.erasePos, hr], hσ⟩
+
+/-! ### top-level items -/
+
+/-- the side conditions of an item: what the grammar requires of it (well-formedness) and that
+    its unprinted parts are what the parser builds -/
+def ItemOK : SItem → Prop
+  | .schema s => SchemaDefOK s
+  | .schemaExt s => SchemaExtOK s
+  | .directive d => DirectiveDefOK d
+  | .definition d => DefOK d
+  | .extension d => DefOK d ∧ d.desc = [] ∧ ExtendsSomething d
+
+/-- the item as the parser run returns it: positions erased, `BuiltIn` not yet set -/
+def SItem.norm : SItem → SItem
+  | .schema s => .schema s.erasePos
+  | .schemaExt s => .schemaExt s.erasePos
+  | .directive d => .directive d.erasePos
+  | .definition d => .definition ({ d with builtIn := false } : Definition).erasePos
+  | .extension d => .extension ({ d with builtIn := false } : Definition).erasePos
+
+def SItem.erasePos : SItem → SItem
+  | .schema s => .schema s.erasePos
+  | .schemaExt s => .schemaExt s.erasePos
+  | .directive d => .directive d.erasePos
+  | .definition d => .definition d.erasePos
+  | .extension d => .extension d.erasePos
+
+theorem erasePos_add (doc : SchemaDoc) (it : SItem) : (doc.add it).erasePos = doc.erasePos.add it.erasePos := by
+  cases it <;> simp [SchemaDoc.add, SchemaDoc.erasePos, SItem.erasePos]
+
+/-- the first token of a printed item: a description or a keyword; it satisfies the follow
+    condition of the item before it -/
+theorem folItem_of_item {dk : Kind} (hdk : DescKind dk) (it : SItem) {σ σ' : Stream} (h : Starts σ (printItemK dk it) σ') :
+    FolItem σ ∧ σ.head.kind ≠ .eof := by
+  have key : ∀ (desc : Bytes) (kw : Tok) (rest : List Tok), kw.kind = .name → kw.value ≠ kwImplements →
+      Starts σ (printDescK dk desc ++ kw :: rest) σ' → FolItem σ ∧ σ.head.kind ≠ .eof := by
+    intro desc kw rest hk hv hst
+    by_cases hd : desc = []
+    · simp only [printDescK, hd, if_true, List.nil_append] at hst
+      have hh := hst.head
+      have hkk : σ.head.kind = .name := by rw [← show (Tok.ofToken σ.head).kind = σ.head.kind from rfl, hh]; exact hk
+      have hvv : σ.head.value = kw.value := by rw [← show (Tok.ofToken σ.head).value = σ.head.value from rfl, hh]
+      exact ⟨⟨by simp [hkk], by simp [hkk], by simp [hkk], by simp [hkk], by simp [hkk], by simp [hkk], by simp [hkk],
+        fun hc => hv (hvv ▸ hc.2)⟩, by simp [hkk]⟩
+    · simp only [printDescK, if_neg hd, List.cons_append, List.nil_append] at hst
+      have hkk : σ.head.kind = dk := hst.head_kind
+      rcases hdk with h' | h' <;> rw [h'] at hkk <;>
+        exact ⟨⟨by simp [hkk], by simp [hkk], by simp [hkk], by simp [hkk], by simp [hkk], by simp [hkk], by simp [hkk],
+          noImplements_of_kind (by simp [hkk])⟩, by simp [hkk]⟩
+  cases it with
+  | schema s => exact key s.desc (tKw "schema") _ rfl (by decide) (by simpa [printItemK, printSchemaDefK] using h)
+  | schemaExt s =>
+    exact key [] (tKw "extend") _ rfl (by decide) (by simpa [printItemK, printSchemaExt, printDescK] using h)
+  | directive d => exact key d.desc (tKw "directive") _ rfl (by decide) (by simpa [printItemK, printDirectiveDefK] using h)
+  | definition d =>
+    refine key d.desc (DefKind.keyword d.kind) _ (keyword_value d.kind).1 ?_ (by simpa [printItemK, printDefinitionK] using h)
+    rw [(keyword_value d.kind).2]; cases d.kind <;> decide
+  | extension d =>
+    exact key [] (tKw "extend") _ rfl (by decide) (by simpa [printItemK, printExtensionK, printDescK] using h)
+
+theorem folItem_of_eof {σ : Stream} (h : σ.head.kind = .eof) : FolItem σ :=
+  ⟨by simp [h], by simp [h], by simp [h], by simp [h], by simp [h], by simp [h], by simp [h], noImplements_of_kind (by simp [h])⟩
+
+/-- `extend …` -/
+theorem fwd_typeSystemExtension {dk : Kind} (hdk : DescKind dk) (it : SItem) (hok : ItemOK it)
+    (hext : (∃ s, it = .schemaExt s) ∨ (∃ d, it = .extension d)) (n : Nat) (doc : SchemaDoc) (a : AS) (σ' : Stream)
+    (hs : Starts a.σ (printItemK dk it) σ') (hfol : FolItem σ') :
+    Fwd (parseTypeSystemExtension n doc) a (fun y a' => y.erasePos = doc.erasePos.add it.norm ∧ a'.σ = σ') := by
+  unfold parseTypeSystemExtension
+  rcases hext with ⟨s, rfl⟩ | ⟨d, rfl⟩
+  · simp only [printItemK, printSchemaExt] at hs
+    obtain ⟨σ1, h1, h2⟩ := hs.cons_single
+    refine Fwd.bind (fwd_keyword "extend" (by simpa using h1)) ?_
+    rintro _ b1 hσ1
+    refine Fwd.bind (fwd_peek b1) ?_
+    rintro t b2 ⟨rfl, rfl⟩
+    have hv : b1.σ.head.value = kwSchema := by
+      rw [hσ1]
+      obtain ⟨σ2, h3, _⟩ := h2.cons_single
+      obtain ⟨u, hσu, hu⟩ := h3.single
+      rw [hσu]; exact ofToken_value hu
+    refine Fwd.ite_pos hv (Fwd.bind (fwd_schemaExtension s hok n _ σ' (by simpa [hσ1] using h2) hfol) ?_)
+    rintro sd b3 ⟨hsd, hσ⟩
+    refine (Fwd.pure _ _).mono ?_
+    rintro y b4 ⟨rfl, rfl⟩
+    exact ⟨by simp [SchemaDoc.erasePos, SchemaDoc.add, SItem.norm, hsd], hσ⟩
+  · obtain ⟨hdok, hdesc, hx⟩ := hok
+    simp only [printItemK, printExtensionK] at hs
+    obtain ⟨σ1, h1, h2⟩ := hs.cons_single
+    refine Fwd.bind (fwd_keyword "extend" (by simpa using h1)) ?_
+    rintro _ b1 hσ1
+    refine Fwd.bind (fwd_peek b1) ?_
+    rintro t b2 ⟨rfl, rfl⟩
+    have hv : b1.σ.head.value = (DefKind.keyword d.kind).value := by
+      rw [hσ1, ← show (Tok.ofToken σ1.head).value = σ1.head.value from rfl, h2.head]
+    rw [hv]
+    have fin : ∀ (p : Prog Definition), Fwd p { pk := true, σ := b1.σ, cnt := b1.cnt }
+        (fun y a' => y.erasePos = ({ d with builtIn := false } : Definition).erasePos ∧ a'.σ = σ') →
+        Fwd (p >>= fun x => Pure.pure { doc with extensions := doc.extensions ++ [x] }) { pk := true, σ := b1.σ, cnt := b1.cnt }
+          (fun y a' => y.erasePos = doc.erasePos.add (SItem.extension d).norm ∧ a'.σ = σ') := by
+      intro p hp
+      refine Fwd.bind hp ?_
+      rintro x b3 ⟨hx', hσ⟩
+      refine (Fwd.pure _ _).mono ?_
+      rintro y b4 ⟨rfl, rfl⟩
+      exact ⟨by simp [SchemaDoc.erasePos, SchemaDoc.add, SItem.norm, hx'], hσ⟩
+    have hs2 : Starts ({ pk := true, σ := b1.σ, cnt := b1.cnt } : AS).σ (DefKind.keyword d.kind :: printDefBodyK dk d) σ' := by
+      simpa [hσ1] using h2
+    cases hkind : d.kind with
+    | scalar =>
+      refine Fwd.ite_neg (by decide) (Fwd.ite_pos rfl (fin _ ?_))
+      exact fwd_parseScalarTypeExtension hdk d hkind hdok hdesc hx n _ σ' hs2 hfol
+    | object =>
+      refine Fwd.ite_neg (by decide) (Fwd.ite_neg (by decide) (Fwd.ite_pos rfl (fin _ ?_)))
+      exact fwd_parseObjectTypeExtension hdk d hkind hdok hdesc hx n _ σ' hs2 hfol
+    | interface =>
+      refine Fwd.ite_neg (by decide) (Fwd.ite_neg (by decide) (Fwd.ite_neg (by decide) (Fwd.ite_pos rfl (fin _ ?_))))
+      exact fwd_parseInterfaceTypeExtension hdk d hkind hdok hdesc hx n _ σ' hs2 hfol
+    | union =>
+      refine Fwd.ite_neg (by decide) (Fwd.ite_neg (by decide) (Fwd.ite_neg (by decide) (Fwd.ite_neg (by decide)
+        (Fwd.ite_pos rfl (fin _ ?_)))))
+      exact fwd_parseUnionTypeExtension hdk d hkind hdok hdesc hx n _ σ' hs2 hfol
+    | «enum» =>
+      refine Fwd.ite_neg (by decide) (Fwd.ite_neg (by decide) (Fwd.ite_neg (by decide) (Fwd.ite_neg (by decide)
+        (Fwd.ite_neg (by decide) (Fwd.ite_pos rfl (fin _ ?_))))))
+      exact fwd_parseEnumTypeExtension hdk d hkind hdok hdesc hx n _ σ' hs2 hfol
+    | inputObject =>
+      refine Fwd.ite_neg (by decide) (Fwd.ite_neg (by decide) (Fwd.ite_neg (by decide) (Fwd.ite_neg (by decide)
+        (Fwd.ite_neg (by decide) (Fwd.ite_neg (by decide) (Fwd.ite_pos rfl (fin _ ?_)))))))
+      exact fwd_parseInputObjectTypeExtension hdk d hkind hdok hdesc hx n _ σ' hs2 hfol
 
 end Gql.Parser
